@@ -577,11 +577,16 @@ func rulePeekUnread(c *Ctx, r *Report) {
 		isUn := func(in ssa.Instruction) bool { return in == un }
 		uk := usesK(fn)
 		// path-sensitive in the outcome of the read: 0 unknown, 1 succeeded (err == nil), 2 failed
-		offending := errStateReach(read, errVal, uk, isUn)
+		// (after seed C19d) every exit counts, not only the uses of the continuation: an error exit that skips
+		// the un-read (representation_error for an invalid character) leaves the character consumed
+		offending := errStateReach(read, errVal, func(in ssa.Instruction) bool {
+			_, isRet := in.(*ssa.Return)
+			return isRet || uk(in)
+		}, isUn)
 		if offending != nil {
-			r.bad(rule, key+"/unread", c.at(offending), descU, "the continuation is reachable from a successful read without passing through the un-read")
+			r.bad(rule, key+"/unread", c.at(offending), descU, "a return or a use of the continuation is reachable from a successful read without passing through the un-read")
 		} else {
-			r.ok(rule, key+"/unread", c.at(un), descU, "every path from the read to a use of the continuation passes through the un-read or lies under a fact that the read failed", true)
+			r.ok(rule, key+"/unread", c.at(un), descU, "every path from the read to a return or a use of the continuation passes through the un-read or lies under a fact that the read failed", true)
 		}
 		descS := "the un-read runs only when the read succeeded"
 		if errVal != nil && readSucceeded(un, errVal) {
